@@ -1897,8 +1897,12 @@ class _Simu(_IObserver, _params.Updatable, ABC):
 
         if self.isNonLinear:
             # dofsValues = dofsValues - u
-            # set incremental dof values
-            dofsValues -= self._Solver_Get_Newton_Raphson_current_solution()[dofs]
+            # set incremental dof values: the entries of a dof are summed (see
+            # __Solver_Get_Dirichlet_A_x), so its current value is subtracted once
+            _, first = np.unique(dofs, return_index=True)
+            dofsValues[first] -= self._Solver_Get_Newton_Raphson_current_solution()[
+                dofs[first]
+            ]
 
         if algo == AlgoType.euler_explicit:
             # the solve variable is a^n: constrained DOFs have zero acceleration
